@@ -247,14 +247,17 @@ def constructors(ctx):
                     return Obj("MultiVector")
                 return NotImplemented
             it.class_call_hook = cls_call
+            it.instance_classes["Algebra"] = "algebra.Algebra"     # helpers of the class are resolved from the source
             try:
-                it.run(q, [Obj("algebra", {"d": d})])
+                it.run(q, [Obj("Algebra", {"d": d})])
             except NoValue as exc:
                 raise Unknown(q, str(exc), fn)
             want = tuple(g for g in range(d + 1) if g % 2 == parity)
             got = seen.get("grades")
             if isinstance(got, list):
                 got = tuple(got)
+            if not isinstance(got, tuple):
+                raise Unknown(q, f"the grades handed to the constructor evaluate to {got!r}", fn)
             if got != want:
                 ctx.violation(q, f"Algebra.{name} in {d} dimensions selects grades {got}, expected {want}", fn)
                 break
